@@ -1,4 +1,6 @@
 import SupervisorModel.Lemmas.Pool
+import SupervisorModel.Lemmas.PoolLedger
+import SupervisorModel.Lemmas.PoolOuts
 /-
   C09 — events reach exactly the subscribed pools, in order, and are not lost.
   Property theorems only.
@@ -177,6 +179,197 @@ example : (5 : Int) ≠ maxint := by decide
 
 /-- at `maxint` the counter restarts at 0: serials are unique only within `maxint + 1` events -/
 theorem newSerial_wraps : newSerial maxint = 0 := by decide
+
+
+/-! ### serials, pool serials and conservation over whole histories
+
+  The three clauses below are invariants of every history `exec h w0 ops` (every list of operations: notifications,
+  listener output in any fragmentation, pool transitions, pipe faults, process state changes, deaths, respawns)
+  that starts in a *consistent* state.  `Consistent` is the inductive invariant itself (Lemmas/PoolLedger.lean:
+  `J` = serial bookkeeping `SInv` + the ledger `Ledger` + distinct pool names and process objects `Static` + the
+  per-listener invariant `LOK`); `fresh_consistent` shows that every freshly configured daemon satisfies it and
+  `consistent_forever` that no operation ever leaves it. -/
+
+/-- the state invariant the three history theorems rest on -/
+def Consistent (h : Bytes → Listener.HRes) (w : W) : Prop := J h w 0 (fun _ => 0)
+
+/-- **fresh_consistent**: a freshly configured daemon -- any number of pools with pairwise distinct names (the
+    `[eventlistener:x]` section names), any subscriptions, buffer sizes and numbers of listeners; counters at their
+    initial value, empty buffers, listeners holding nothing, no event emitted yet -- is consistent. -/
+theorem fresh_consistent (h : Bytes → Listener.HRes) (ps : List PoolSt) (hf : FreshPools ps) :
+    Consistent h { pools := assignIds 0 ps } := j_fresh h ps hf 0
+
+/-- **consistent_forever**: whatever happens (any list of operations), a consistent daemon stays consistent. -/
+theorem consistent_forever (h : Bytes → Listener.HRes) (w0 : W) (ops : List Op) (hc : Consistent h w0) :
+    Consistent h (exec h w0 ops) := j_exec h 0 ops w0 hc
+
+/-- the pools of the regression instances below are fresh pools: the hypotheses are satisfiable -/
+example : FreshPools [{ name := "a", bufSize := 3, subs := [.TICK, .TICK_5], procs := [Listener.initial] },
+                      { name := "b", bufSize := 1, subs := [.EVENT], procs := [Listener.initial, Listener.initial] }] := by
+  refine ⟨by decide, ?_⟩
+  intro p hp
+  simp only [List.mem_cons, List.not_mem_nil, or_false] at hp
+  rcases hp with rfl | rfl <;> refine ⟨rfl, rfl, ?_⟩ <;> intro l hl <;> simp at hl <;> subst hl <;>
+    exact ⟨Listener.lok_initial, rfl⟩
+
+/-- how many of the events emitted before event `e` carry a serial -/
+def serialsBefore (w : W) (e : Nat) : Nat := cnt (w.events.map (·.serial)) e
+/-- how many of the events emitted before event `e` the pool named `nm` has accepted -/
+def acceptedBefore (w : W) (nm : String) (e : Nat) : Nat := cnt (w.events.map fun ev => ev.poolSerials.lookup nm) e
+
+/-- **serial_is_draw_index** (every history): the serial of an event is the number of events that got a serial
+    before it, counted the way `new_serial` counts -- from 0, and starting again at 0 after `maxint` because
+    `new_serial` resets the counter to -1 when it has reached `maxint` (`serAt k = k mod (maxint + 1)`); and
+    `GlobalSerial` stands exactly where the last draw left it.  Events nobody is subscribed to never get a serial
+    (`_acceptEvent` assigns it) and do not count. -/
+theorem serial_is_draw_index (h : Bytes → Listener.HRes) (w0 : W) (ops : List Op) (hc : Consistent h w0)
+    (e : Nat) (ev : Ev) (s : Int) (hev : (exec h w0 ops).events[e]? = some ev) (hs : ev.serial = some s) :
+    s = serAt (serialsBefore (exec h w0 ops) e) ∧
+    (exec h w0 ops).gserial = ctrAfter (serialsBefore (exec h w0 ops) (exec h w0 ops).events.length) := by
+  have hg := (consistent_forever h w0 ops hc).sv.g
+  exact ⟨hg.1 e s (by simp [sers, hev, hs]), by simpa [sers, serialsBefore] using hg.2⟩
+
+/-- **serial_unique** (every history): two different events of one daemon lifetime never carry the same serial,
+    unless at least `maxint + 1` = 2^63 events were emitted from the one to the other (then `new_serial` has
+    wrapped, see `newSerial_wraps` and `serAt_period`: the code does reset the counter, so this bound is exact). -/
+theorem serial_unique (h : Bytes → Listener.HRes) (w0 : W) (ops : List Op) (hc : Consistent h w0)
+    (e1 e2 : Nat) (ev1 ev2 : Ev) (s1 s2 : Int) (hlt : e1 < e2)
+    (h1 : (exec h w0 ops).events[e1]? = some ev1) (h2 : (exec h w0 ops).events[e2]? = some ev2)
+    (hs1 : ev1.serial = some s1) (hs2 : ev2.serial = some s2) (hwin : ((e2 - e1 : Nat) : Int) ≤ maxint) : s1 ≠ s2 :=
+  chain_unique _ _ (consistent_forever h w0 ops hc).sv.g e1 e2 s1 s2 hlt (by simp [sers, h1, hs1]) (by simp [sers, h2, hs2]) hwin
+
+/-- **serial_increasing**: while fewer than 2^63 events have been emitted, serials strictly increase in the order
+    of emission. -/
+theorem serial_increasing (h : Bytes → Listener.HRes) (w0 : W) (ops : List Op) (hc : Consistent h w0)
+    (e1 e2 : Nat) (ev1 ev2 : Ev) (s1 s2 : Int) (hlt : e1 < e2)
+    (h1 : (exec h w0 ops).events[e1]? = some ev1) (h2 : (exec h w0 ops).events[e2]? = some ev2)
+    (hs1 : ev1.serial = some s1) (hs2 : ev2.serial = some s2) (hnowrap : (e2 : Int) ≤ maxint) : s1 < s2 :=
+  chain_increasing _ _ (consistent_forever h w0 ops hc).sv.g e1 e2 s1 s2 hlt (by simp [sers, h1, hs1]) (by simp [sers, h2, hs2]) hnowrap
+
+/-- the wrap is real: the draw `maxint + 1` calls later returns the same serial again -/
+theorem serAt_period (k : Nat) : serAt (k + (maxint + 1).toNat) = serAt k := by
+  unfold serAt maxint; omega
+
+/-- the hypotheses of `serial_unique` are met by a concrete history: two ticks, serials 0 and 1 -/
+example :
+    let w := exec Listener.defaultHandler { pools := assignIds 0 [{ name := "a", bufSize := 3, subs := [.TICK], procs := [Listener.initial] }] }
+      [.notify .TICK_5 [], .notify .TICK_60 []]
+    w.events.map (·.serial) = [some 0, some 1] ∧ w.gserial = 1 := by decide
+
+/-- **poolserial_is_draw_index** (every history, every pool): the poolserial an event carries for a pool is the
+    number of events that pool accepted among those emitted before it (counted like `new_serial` counts), and the
+    pool's counter stands where its last draw left it.  An event is accepted by a pool inside the `notify` that
+    emits it (`j_accept_false`, `j_rebuffer`: every later `_acceptEvent` of the pool finds its name in
+    `pool_serials`), so "emitted before" is "accepted before". -/
+theorem poolserial_is_draw_index (h : Bytes → Listener.HRes) (w0 : W) (ops : List Op) (hc : Consistent h w0)
+    (i : Nat) (p : PoolSt) (hp : (exec h w0 ops).pools[i]? = some p)
+    (e : Nat) (ev : Ev) (a : Int) (hev : (exec h w0 ops).events[e]? = some ev) (ha : ev.poolSerials.lookup p.name = some a) :
+    a = serAt (acceptedBefore (exec h w0 ops) p.name e) ∧
+    p.serial = ctrAfter (acceptedBefore (exec h w0 ops) p.name (exec h w0 ops).events.length) := by
+  have hg := (consistent_forever h w0 ops hc).sv.p i p hp
+  exact ⟨hg.1 e a (by simp [pss, hev, ha]), by simpa [pss, acceptedBefore] using hg.2⟩
+
+/-- **poolserial_increasing** (every history, every pool): of two events a pool accepted, the one accepted later
+    carries the strictly larger poolserial -- as long as the pool's counter has not wrapped, i.e. fewer than 2^63
+    events so far (the reset in `new_serial` applies to pool counters as well). -/
+theorem poolserial_increasing (h : Bytes → Listener.HRes) (w0 : W) (ops : List Op) (hc : Consistent h w0)
+    (i : Nat) (p : PoolSt) (hp : (exec h w0 ops).pools[i]? = some p)
+    (e1 e2 : Nat) (ev1 ev2 : Ev) (a1 a2 : Int) (hlt : e1 < e2)
+    (h1 : (exec h w0 ops).events[e1]? = some ev1) (h2 : (exec h w0 ops).events[e2]? = some ev2)
+    (ha1 : ev1.poolSerials.lookup p.name = some a1) (ha2 : ev2.poolSerials.lookup p.name = some a2)
+    (hnowrap : (e2 : Int) ≤ maxint) : a1 < a2 :=
+  chain_increasing _ _ ((consistent_forever h w0 ops hc).sv.p i p hp) e1 e2 a1 a2 hlt
+    (by simp [pss, h1, ha1]) (by simp [pss, h2, ha2]) hnowrap
+
+/-- **poolserial_unique**: in any case two events fewer than 2^63 emissions apart get different poolserials -/
+theorem poolserial_unique (h : Bytes → Listener.HRes) (w0 : W) (ops : List Op) (hc : Consistent h w0)
+    (i : Nat) (p : PoolSt) (hp : (exec h w0 ops).pools[i]? = some p)
+    (e1 e2 : Nat) (ev1 ev2 : Ev) (a1 a2 : Int) (hlt : e1 < e2)
+    (h1 : (exec h w0 ops).events[e1]? = some ev1) (h2 : (exec h w0 ops).events[e2]? = some ev2)
+    (ha1 : ev1.poolSerials.lookup p.name = some a1) (ha2 : ev2.poolSerials.lookup p.name = some a2)
+    (hwin : ((e2 - e1 : Nat) : Int) ≤ maxint) : a1 ≠ a2 :=
+  chain_unique _ _ ((consistent_forever h w0 ops hc).sv.p i p hp) e1 e2 a1 a2 hlt
+    (by simp [pss, h1, ha1]) (by simp [pss, h2, ha2]) hwin
+
+/-- three events, the second of a type pool "a" is not subscribed to: it gets a serial from pool "b" only, and
+    pool "a"'s poolserials count pool "a"'s acceptances (0, 1), not the serials (0, 2) -/
+example :
+    let w := exec Listener.defaultHandler { pools := assignIds 0 [{ name := "a", bufSize := 3, subs := [.TICK_5], procs := [Listener.initial] },
+                                                                  { name := "b", bufSize := 3, subs := [.TICK], procs := [Listener.initial] }] }
+      [.notify .TICK_5 [], .notify .TICK_60 [], .notify .TICK_5 []]
+    w.events.map (fun ev => (ev.serial, ev.poolSerials.lookup "a")) = [(some 0, some 0), (some 1, none), (some 2, some 1)] := by
+  decide
+
+/-- **conservation** (every history, every pool, every event, at every moment): an event a pool has accepted is in
+    exactly one place -- once in the pool's buffer, or held by exactly one of the pool's listeners (sent, not yet
+    answered), or answered OK by one of them (once; it is gone), or discarded by the overflow rule with its
+    error-log entry (once; it is gone): the four counts add up to 1.  For an event the pool has not accepted all
+    four are 0.  So an event is never in two places, never dropped silently (leaving the buffer or a listener
+    without an OK answer or a discard entry would make the sum 0), never duplicated, and only an OK answer or the
+    overflow rule takes it out of the pool; a FAIL answer, a protocol violation or the death of the listener moves
+    it from `heldBy` back to `inBuffer` (`reject_returns_to_head`: at the head) of this pool only. -/
+theorem conservation (h : Bytes → Listener.HRes) (w0 : W) (ops : List Op) (hc : Consistent h w0) (pi e : Nat) :
+    inBuffer (exec h w0 ops) pi e + heldBy (exec h w0 ops) pi e +
+      okCount h pi e (exec h w0 ops).outs + discardCount pi e (exec h w0 ops).outs =
+    (if accepted (exec h w0 ops) pi e = true then 1 else 0) := by
+  have := (consistent_forever h w0 ops hc).led pi e
+  cases ha : accepted (exec h w0 ops) pi e <;> simp [ha] at this ⊢ <;> omega
+
+/-- what `accepted` means: the event exists and carries a serial and this pool's poolserial (the envelope never
+    falls back on a default) -/
+theorem accepted_has_serials (h : Bytes → Listener.HRes) (w0 : W) (ops : List Op) (hc : Consistent h w0) (pi e : Nat)
+    (ha : accepted (exec h w0 ops) pi e = true) :
+    ∃ p ev, (exec h w0 ops).pools[pi]? = some p ∧ (exec h w0 ops).events[e]? = some ev ∧
+      (ev.poolSerials.lookup p.name).isSome = true ∧ ev.serial.isSome = true :=
+  acc_of_accepted (consistent_forever h w0 ops hc).sv pi e ha
+
+/-- a concrete history through all four places: two ticks into a pool of buffer size 1 (the first is discarded,
+    the second buffered), the listener becomes READY, is handed the second, answers OK -/
+example :
+    let w0 : W := { pools := assignIds 0 [{ name := "a", bufSize := 1, subs := [.TICK], procs := [Listener.initial] }] }
+    let ops1 : List Op := [.spawn 0 0 7 [], .pstate 0 0 .running, .notify .TICK_5 [], .notify .TICK_60 []]
+    let ops2 := ops1 ++ [.read 0 0 [82, 69, 65, 68, 89, 10], .transition 0]
+    let ops3 := ops2 ++ [.read 0 0 [82, 69, 83, 85, 76, 84, 32, 50, 10, 79, 75]]
+    let w1 := exec Listener.defaultHandler w0 ops1
+    let w2 := exec Listener.defaultHandler w0 ops2
+    let w3 := exec Listener.defaultHandler w0 ops3
+    (accepted w1 0 1 = true ∧ discardCount 0 1 w1.outs = 1 ∧ inBuffer w1 0 2 = 1) ∧
+    (heldBy w2 0 2 = 1 ∧ inBuffer w2 0 2 = 0) ∧
+    (okCount Listener.defaultHandler 0 2 w3.outs = 1 ∧ heldBy w3 0 2 = 0 ∧ inBuffer w3 0 2 = 0) := by
+  decide +kernel
+
+/-- **gone_stays_gone** (every history and every continuation of it): once an event has been answered OK by a
+    listener of the pool, or discarded by the pool's overflow rule, it is never in that pool's buffer or with one of
+    its listeners again, and it is never answered OK or discarded a second time -- an event is not re-created after
+    it is gone.  (The trace is append-only, `outs_exec`; the rest is `conservation`.) -/
+theorem gone_stays_gone (h : Bytes → Listener.HRes) (w0 : W) (ops more : List Op) (hc : Consistent h w0) (pi e : Nat)
+    (hgone : okCount h pi e (exec h w0 ops).outs + discardCount pi e (exec h w0 ops).outs = 1) :
+    inBuffer (exec h w0 (ops ++ more)) pi e = 0 ∧ heldBy (exec h w0 (ops ++ more)) pi e = 0 ∧
+    okCount h pi e (exec h w0 (ops ++ more)).outs + discardCount pi e (exec h w0 (ops ++ more)).outs = 1 := by
+  have hc2 := conservation h w0 (ops ++ more) hc pi e
+  have hx : OutsExt (exec h w0 ops) (exec h w0 (ops ++ more)) := by rw [exec_append]; exact outs_exec h _ more
+  have m1 := okCount_mono h pi e hx
+  have m2 := discardCount_mono pi e hx
+  split at hc2 <;> omega
+
+/-- the hypothesis is met: in the history of the `conservation` example event 1 is discarded after four operations -/
+example :
+    let w := exec Listener.defaultHandler { pools := assignIds 0 [{ name := "a", bufSize := 1, subs := [.TICK], procs := [Listener.initial] }] }
+      [.spawn 0 0 7 [], .pstate 0 0 .running, .notify .TICK_5 [], .notify .TICK_60 []]
+    okCount Listener.defaultHandler 0 1 w.outs + discardCount 0 1 w.outs = 1 := by decide +kernel
+
+/-- **draw_order_irrelevant**: `_acceptEvent` draws the poolserial before it applies the overflow rule and inserts the
+    event (generated facts `serialDrawBeforeInsert`, `poolSerialDrawBeforeInsert`, read off the statement order of the
+    source); the model does the same.  Drawing it after the insertion instead would leave exactly the same state
+    and log entries (`stamp_insertEv_comm`), so none of the theorems above depends on where in `_acceptEvent` the
+    draw stands -- only on the early `return` for an already accepted event standing before the insertion, which is
+    the generated guard `accept_g2`/`accept_g3` the model branches on. -/
+theorem draw_order_irrelevant (i e : Nat) (head : Bool) (p : PoolSt) (w : W) :
+    (if poolSerialDrawBeforeInsert = true then insertEv i e head (stamp i e p w) else stamp i e p (insertEv i e head w)) =
+      insertEv i e head (stamp i e p w) := by
+  split
+  · rfl
+  · exact stamp_insertEv_comm i e head p w
 
 /-! ### concrete regression instances (finite evaluations of the model, not the universal claims) -/
 
